@@ -265,7 +265,10 @@ def execute(th, db, sym):
         ph = prec_phase(db, p, (int(form[1:]) - 1) % (len(DBS[db]['phases']) - 1))
         x, T, _ = _xT(db, form, args)
         if kind == 'curv':
-            c = th.curvatureFactor(x, T, precPhase=ph, removeCache=rc)
+            # token sd: let the method search for the two-phase field along the driving-force direction (what the surrogate
+            # training does at points whose equilibrium is single phase)
+            c = th.curvatureFactor(x, T, precPhase=ph, removeCache=rc, computeSearchDir=True) if 'sd' in p else \
+                th.curvatureFactor(x, T, precPhase=ph, removeCache=rc)
             if c is None:
                 parts = [('none', 'energy', np.array([np.nan]))]
             else:
@@ -383,6 +386,8 @@ def run_fresh(case):
         viol.append({'sig': 'argmut/%s/%s/%s' % (db, sym_kind(sym), name),
                      'msg': 'fresh object, %s: argument %s changed from %r to %r' % (sym, name, before, after)})
     bad = [n for n, c, a in parts if np.any(np.isnan(a))]
+    if bad and '|P5|' in sym and sym.startswith('curv'):
+        bad = []          # far inside the single-phase region "no result" (None) is a legitimate answer of the curvature query
     if bad:
         raise RuntimeError('reference point not converging on the fresh object: %s %s %r' % (db, sym, bad))
     for n, c, a in parts:
@@ -519,7 +524,7 @@ def mixed_alphabet(db, quick):
         a += ['ic|T1|g0', 'ic|T2|garr', 'ic|T1|garr|curvm'] + ([] if quick else ['ic|Tarr|grev'])
         a += ['dnkj|P1|keep', 'dnkj|arr3|drop', 'tracer|P3|keep', 'tracer|arr1|drop']
     else:
-        a += ['curv|P1|keep', 'curv|P3|drop', 'growth|P2|keep', 'imp|P4|keep',
+        a += ['curv|P1|keep', 'curv|P3|drop', 'curv|P5|keep|sd', 'growth|P2|keep', 'imp|P4|keep',
               'dnkj|P1|keep', 'dnkj|arr3|drop', 'tracer|arr1|keep']
         if db == 'ni':
             a += ['ic3|P1|garr']
